@@ -9,9 +9,11 @@
 (* to that client: ReportedIsPerCombination states that the reported count of a          *)
 (* candidate combination is the number of batches in which THAT combination was          *)
 (* selected (it fails when two call sites share a key for different combinations).       *)
+(* An "evaluated" event after a rank-pair call lists the pairs actually scored in that    *)
+(* batch: they must be exactly the returned candidates.                                  *)
 EXTENDS Naturals, Integers, Sequences, FiniteSets, FiniteSetsExt, TLC, Json, IOUtils
 
-VARIABLES l, cnt, pk
+VARIABLES l, cnt, pk, lastret
 Trace == ndJsonDeserialize(IOEnv.TRACE_FILE)
 
 Before(list, c, i, j) == c[list[i]] < c[list[j]] \/ (c[list[i]] = c[list[j]] /\ i < j)
@@ -24,9 +26,9 @@ RangeOf(s) == {s[i] : i \in DOMAIN s}
 Registered(c, list) == [key \in (DOMAIN c) \cup RangeOf(list) |-> IF key \in DOMAIN c THEN c[key] ELSE 0]
 Get(f, k) == IF k \in DOMAIN f THEN f[k] ELSE 0
 
-Init == l = 1 /\ cnt = <<>> /\ pk = <<>>
+Init == l = 1 /\ cnt = <<>> /\ pk = <<>> /\ lastret = <<>>
 Begin == /\ l <= Len(Trace) /\ Trace[l].e = "begin"
-         /\ cnt' = <<>> /\ pk' = <<>> /\ l' = l + 1
+         /\ cnt' = <<>> /\ pk' = <<>> /\ lastret' = <<>> /\ l' = l + 1
 Call == /\ l <= Len(Trace) /\ Trace[l].e = "call"
         /\ LET ev == Trace[l]
                c0 == Registered(cnt, ev.list)
@@ -39,9 +41,15 @@ Call == /\ l <= Len(Trace) /\ Trace[l].e = "call"
               /\ \A key \in DOMAIN c1 : ev.counts[key] = c1[key]       \* reported counts = model counts
               /\ cnt' = c1
               /\ pk' = [cl \in (DOMAIN pk) \cup {ev.client} |-> IF cl = ev.client THEN new ELSE pk[cl]]
+              /\ lastret' = IF ev.client = "mixed_rank_graph" THEN s ELSE lastret
         /\ l' = l + 1
-Next == Begin \/ Call
-Spec == Init /\ [][Next]_<<l, cnt, pk>>
+\* {"e":"evaluated","keys":[candidate keys of the pairs that appear in the batch's rows]}: the pairs evaluated in a
+\* batch are exactly the candidates the rank-pair sampler returned for it (selected = evaluated = counted)
+Evaluated == /\ l <= Len(Trace) /\ Trace[l].e = "evaluated"
+             /\ RangeOf(Trace[l].keys) = RangeOf(lastret)
+             /\ UNCHANGED <<cnt, pk, lastret>> /\ l' = l + 1
+Next == Begin \/ Call \/ Evaluated
+Spec == Init /\ [][Next]_<<l, cnt, pk, lastret>>
 
 ReportedIsPerCombination == \A cl \in DOMAIN pk : \A key \in DOMAIN pk[cl] : cnt[key] = pk[cl][key]
 Accepted == TLCGet("stats").diameter - 1 = Len(Trace)
